@@ -52,7 +52,7 @@ JUDGES = {"doc": judge}
 
 def shards(tier, seed):
     T = tier == "thorough"
-    return [{"name": "orderings", "exhaustive": "all 326 duplicate-free orderings of subsets of the 5 standard domain fields", "reps": 4 if T else 1},
+    return [{"name": "orderings", "exhaustive": "all 326 duplicate-free orderings of subsets of the 5 standard domain fields", "reps": 8 if T else 2},
             {"name": "repetition-0", "part": 0, "parts": 4, "exhaustive": "all 3906 sequences of length <= 5 over the 5 standard fields"},
             {"name": "repetition-1", "part": 1, "parts": 4}, {"name": "repetition-2", "part": 2, "parts": 4},
             {"name": "repetition-3", "part": 3, "parts": 4},
